@@ -1,6 +1,7 @@
 import Capella.Props.C01
 import Capella.Lemmas.XmlEdit
 import Capella.Lemmas.XmlNsUpdate
+import Capella.Lemmas.XmlEmpty
 import Capella.Gen.Ns
 
 /-!
@@ -94,12 +95,14 @@ theorem update_idempotent (vps : List (Str × Str)) (d d' : Doc)
   updateNs_idem _ vps live_table_ok.init d d' h
 
 /-- **Only the declarations change.**  On a document whose root carries no text and no tail and which has
-at most one comment behind the root (every Capella file), `update_namespaces` leaves the comments, the
+at most one comment behind the root, the comments without tails (every parsed file), `update_namespaces`
+leaves the comments, the
 root's tag, attributes and children — the whole element tree — as they are; only the root's namespace
 declarations may differ. -/
 theorem update_only_declarations (vps : List (Str × Str)) (d d' : Doc)
     (h : updateNs Capella.Gen.Ns.plugins vps d = .ok d')
-    (htext : d.root.text = none) (htail : d.root.tail = none) (hpost : d.post.length ≤ 1) :
+    (htext : d.root.text = none) (htail : d.root.tail = none) (hpost : d.post.length ≤ 1)
+    (hct : ∀ c ∈ d.pre ++ d.post, c.tail = none) :
     d'.pre = d.pre ∧ d'.post = d.post ∧
       ∃ nsd', d'.root = .mk d.root.tag nsd' d.root.attrs d.root.text d.root.tail d.root.kids := by
   obtain ⟨n, _, hcase⟩ := updateNs_shape _ vps d d' h
@@ -109,7 +112,10 @@ theorem update_only_declarations (vps : List (Str × Str)) (d d' : Doc)
   subst htext htail
   rcases hcase with ⟨_, rfl⟩ | ⟨_, _, _, rfl⟩
   · exact ⟨rfl, rfl, nsd, rfl⟩
-  · exact ⟨rfl, reverse_short post hpost, sortKV n, rfl⟩
+  · refine ⟨map_dropTail_of_ok (fun c hc => hct c (List.mem_append_left _ hc)), ?_, sortKV n, rfl⟩
+    simp only
+    rw [reverse_short post hpost]
+    exact map_dropTail_of_ok (fun c hc => hct c (List.mem_append_right _ hc))
 
 /-- **What `save()` serialises is Capella-shaped**: `update_namespaces` maps Capella-shaped documents to
 Capella-shaped documents (viewpoint versions free of markup characters; the computed declarations bind one
@@ -182,6 +188,57 @@ theorem missing_viewpoint_refused :
       | .error .viewpointMissing => true | _ => false) = true := by
   decide +kernel
 
+
+/-! ## Empty-string texts (what the object layer really writes)
+
+The edit link of `harness/props/c02.py` (every observed API step as a script of modelled edits) showed that the
+object layer sets `element.text = ""` — e.g. a specification body set to `""` —, which the contract
+`Edit.ok` above excludes.  `""` and "no text" are the same XML information (`<bodies></bodies>`); the
+theorems below widen the domain accordingly: `wfDocE` = Capella-shaped up to `""` texts, `Edit.okE` = the
+contract up to `""` texts, `dropDoc` = every `""` read as "no text".  On documents without `""` texts they
+say what the theorems above say (`strict_domain_is_special_case`). -/
+
+/-- **`save_reload` up to empty texts**: what `write_xml` writes for a document that is Capella-shaped up to
+`""` texts reads back as that document with every `""` text replaced by "no text", in file order. -/
+theorem save_reload_empty (k : FragKind) (d : Doc) (hwf : wfDocE d = true) :
+    parse (writeXml k d) = some (canonDoc (dropDoc d)) :=
+  parse_writeXmlE k d hwf
+
+/-- … which carries exactly the information that was in memory (`""` ≡ no text). -/
+theorem reload_info_equal_empty (k : FragKind) (d : Doc) (hwf : wfDocE d = true) :
+    ∃ d', parse (writeXml k d) = some d' ∧ InfoEqDoc d' (dropDoc d) :=
+  ⟨canonDoc (dropDoc d), save_reload_empty k d hwf, canonDoc_infoEq (dropDoc d) (wfDoc_drop hwf)⟩
+
+/-- every edit the widened contract accepts (now including `element.text = ""` on a childless element and
+inserted subtrees containing such texts) keeps a document in the widened domain -/
+theorem edit_keeps_shape_empty (ed : Edit) (d : Doc) (hwf : wfDocE d = true) (hok : ed.okE d = true) :
+    wfDocE (ed.apply d) = true :=
+  edit_preserves_wfE ed d hwf hok
+
+/-- **`history_save_reload` for what the API really does**: after any finite history of edits accepted by the
+widened contract, save + reload gives a document information-equal to memory up to `""` ≡ no text. -/
+theorem history_save_reload_empty (k : FragKind) (es : List Edit) (d : Doc) (hwf : wfDocE d = true)
+    (hok : okAllE es d = true) :
+    ∃ d', parse (writeXml k (applyAll es d)) = some d' ∧ InfoEqDoc d' (dropDoc (applyAll es d)) :=
+  reload_info_equal_empty k _ (history_preserves_wfE es d hwf hok)
+
+/-- the theorems of the first part are the special case of documents without `""` texts -/
+theorem strict_domain_is_special_case (d : Doc) (hwf : wfDoc d = true) : wfDocE d = true ∧ dropDoc d = d :=
+  wfDocE_of_wfDoc hwf
+
+/-- **Observed steps compose.**  The harness checks every single API step of a history (script `esᵢ` leads
+from the tree before to the tree after, and `okAllE esᵢ` holds there); then the concatenation of the
+scripts is an accepted history of the initial document leading to the final one — the hypothesis of
+`history_save_reload_empty` is what was checked, step by step. -/
+theorem observed_steps_compose (steps : List (List Edit)) (d : Doc) (h : okSteps steps d = true) :
+    okAllE steps.flatten d = true := by
+  induction steps generalizing d with
+  | nil => rfl
+  | cons s rest ih =>
+    simp only [okSteps, Bool.and_eq_true] at h
+    rw [List.flatten_cons, okAllE_append, Bool.and_eq_true]
+    exact ⟨h.1, ih (applyAll s d) h.2⟩
+
 /-! ## The boundary (what an edit must not do, with witnesses) -/
 
 /-- Setting the text to the empty string leaves the domain: it reloads as "no text" (the same XML
@@ -224,6 +281,22 @@ example : okAll hist base = true := by decide
 example : Doc.beq (applyAll hist base) base = false := by decide
 example : ∃ d', parse (writeXml .semantic (applyAll hist base)) = some d' ∧ InfoEqDoc d' (applyAll hist base) :=
   history_save_reload .semantic hist base (by decide) (by decide)
+
+/-! ### Non-vacuity of the empty-text theorems -/
+
+/-- a history that sets a body to `""` (as the object layer does) and inserts a child with an empty body -/
+def histE : List Edit :=
+  [.setText [0, 0] (some []),
+   .insertKid [] 1 (.mk "ownedY".toList [] [("id".toList, "y".toList)] none none
+      [.mk "bodies".toList [] [] (some []) none []]),
+   .setAttr [1] "name".toList "n".toList]
+
+example : okAll histE base = false := by decide
+example : okAllE histE base = true := by decide
+example : wfDoc (applyAll histE base) = false ∧ wfDocE (applyAll histE base) = true := by decide
+example : Doc.beq (dropDoc (applyAll histE base)) (applyAll histE base) = false := by decide
+example : ∃ d', parse (writeXml .semantic (applyAll histE base)) = some d' ∧ InfoEqDoc d' (dropDoc (applyAll histE base)) :=
+  history_save_reload_empty .semantic histE base (by decide) (by decide)
 
 /-! ### Non-vacuity of the namespace theorems -/
 
